@@ -117,14 +117,12 @@ Lemma coef_text_zero ex ar u : coef_text ex ar u 0 = [].
 Proof. reflexivity. Qed.
 
 (* ------------------------------------------------------------------ one group with kanji units *)
-Definition groom3 (a b c : N) : nat := if negb (N.eqb c 0) then 1 else if negb (N.eqb b 0) then 2 else 3.
 Definition gsub (a b c : N) : rnum :=
   match strip [a; b; c] with [] => REmpty | _ => RNum (strip [a; b; c; 0%N]) [] (groom3 a b c) end.
 (* state after the text of the group *)
 Definition gstate (tot : rnum) (g : grp) : rparser :=
   let '(a, b, c, d) := g in
   if N.eqb d 0 then ss tot (gsub a b c) else mkRP 1 false false false 0%N tot (gsub a b c) [d] None.
-Definition groom (g : grp) : nat := let '(a, b, c, d) := g in if N.eqb d 0 then groom3 a b c else 0.
 
 Definition gdigits (g : grp) : Prop := let '(a, b, c, d) := g in (a < 10 /\ b < 10 /\ c < 10 /\ d < 10)%N.
 
@@ -540,10 +538,6 @@ Qed.
 (* the numeral  <group 1> U1 <group 2> U2  with ARBITRARY large units U1 = 10^E1, U2 = 10^E2 (in order, repeated, or
    increasing): accepted iff the digits of group 2 plus E2 fit into room(group 1) + E1; the value is then group 1 with
    group 2 written into its zero positions; otherwise rejected, error state NONE *)
-Definition two_unit_text (w1 w2 : grp -> list N) g1 u1 g2 u2 : list N := (w1 g1 ++ [u1]) ++ (w2 g2 ++ [u2]).
-Definition two_unit_fits (room1 : grp -> nat) g1 E1 g2 E2 : bool := length (sdig g2) + E2 <=? room1 g1 + E1.
-Definition two_unit_digits g1 E1 g2 E2 : list N :=
-  firstn (length (sdig g1) + E1 - (length (sdig g2) + E2)) (sdig g1 ++ repeat 0%N E1) ++ sdig g2 ++ repeat 0%N E2.
 
 Theorem unit_order_ref w1 room1 w2 room2 g1 u1 E1 g2 u2 E2 :
   gw_ok w1 room1 -> gw_ok w2 room2 -> gdigits g1 -> gdigits g2 -> gz g1 = false -> gz g2 = false ->
@@ -712,3 +706,27 @@ Proof.
   intros -> Hi Hf Hni Hnf. unfold fraction_text.
   apply (fraction_std _ _ _ _ (Forall2_adigit _ Hi) (Forall2_adigit _ Hf) Hni Hnf).
 Qed.
+
+(* generic forms of the unit-order statements *)
+Theorem unit_order cfg w1 room1 w2 room2 g1 u1 E1 g2 u2 E2 :
+  cfg = std_cfg ->
+  gw_ok w1 room1 -> gw_ok w2 room2 -> gdigits g1 -> gdigits g2 -> gz g1 = false -> gz g2 = false ->
+  large_unit u1 E1 -> large_unit u2 E2 ->
+  if two_unit_fits room1 g1 E1 g2 E2
+  then parse cfg (two_unit_text w1 w2 g1 u1 g2 u2) = (true, 0%N, map digit_char (two_unit_digits g1 E1 g2 E2))
+  else fst (parse cfg (two_unit_text w1 w2 g1 u1 g2 u2)) = (false, 0%N).
+Proof. intros ->. apply unit_order_std. Qed.
+
+Theorem increasing_unit_rejected_g cfg w1 room1 w2 room2 g1 u1 E1 g2 u2 E2 :
+  cfg = std_cfg ->
+  gw_ok w1 room1 -> gw_ok w2 room2 -> gdigits g1 -> gdigits g2 -> gz g1 = false -> gz g2 = false ->
+  large_unit u1 E1 -> large_unit u2 E2 -> room1 g1 <= 3 -> E1 < E2 ->
+  fst (parse cfg (two_unit_text w1 w2 g1 u1 g2 u2)) = (false, 0%N).
+Proof. intros ->. apply increasing_unit_rejected. Qed.
+
+Theorem repeated_unit_iff_g cfg w1 room1 w2 room2 g1 u E g2 :
+  cfg = std_cfg ->
+  gw_ok w1 room1 -> gw_ok w2 room2 -> gdigits g1 -> gdigits g2 -> gz g1 = false -> gz g2 = false ->
+  large_unit u E ->
+  fst (fst (parse cfg (two_unit_text w1 w2 g1 u g2 u))) = (length (sdig g2) <=? room1 g1).
+Proof. intros ->. apply repeated_unit_iff. Qed.
